@@ -17,6 +17,7 @@ type certTok struct {
 	key        int   // identity of the certified public key
 	signer     int   // identity of the key that signed the certificate
 	validNow   *Term // within its validity window at verification time
+	validAt    map[int]*Term // per clock epoch (verif_SetEpoch); overrides validNow when present
 	clientAuth *Term // carries the client-auth extended key usage
 	der        bool  // raw DER (not PEM-wrapped)
 	isCA       bool
@@ -72,6 +73,17 @@ func init() {
 		return certSlice(&certTok{kind: "cert", der: true, cn: a[0], issuerCN: a[1], serial: p.big(a[2]),
 			key: p.concreteInt(a[3], "key"), signer: p.concreteInt(a[4], "signer"), validNow: a[5].(*Term), clientAuth: a[6].(*Term)})
 	})
+	// verif_CertDERT: like verif_CertDER with a validity flag per clock epoch (1 = when the TLS
+	// configuration is built, 2 = when the handshake happens)
+	reg("verif_CertDERT", func(p *Path, fn *ssa.Function, a []Value) Value {
+		return certSlice(&certTok{kind: "cert", der: true, cn: a[0], issuerCN: a[1], serial: p.big(a[2]),
+			key: p.concreteInt(a[3], "key"), signer: p.concreteInt(a[4], "signer"),
+			validAt: map[int]*Term{1: a[5].(*Term), 2: a[6].(*Term)}, clientAuth: a[7].(*Term)})
+	})
+	reg("verif_SetEpoch", func(p *Path, fn *ssa.Function, a []Value) Value {
+		p.aux["epoch"] = p.concreteInt(a[0], "epoch")
+		return nil
+	})
 	reg("verif_DERToPEM", func(p *Path, fn *ssa.Function, a []Value) Value { return a[0] })
 	reg("crypto/x509.NewCertPool", func(p *Path, fn *ssa.Function, a []Value) Value {
 		return PtrV{c: p.newCell(OpaqueV{kind: "certpool", data: &certPool{}}, nil)}
@@ -118,7 +130,24 @@ func init() {
 		if !chained {
 			return fail("certificate signed by unknown authority")
 		}
-		if tok.validNow != nil && !p.decide(tok.validNow) {
+		if tok.validAt != nil {
+			// the instant the verifier uses: VerifyOptions.CurrentTime, or the clock when that is zero
+			ct := opts.f[structField(ot, "CurrentTime")].(StructV)
+			ep := 0
+			if e, ok := ct.f[1].(*Term); ok && e.cst {
+				ep = int(e.ival.Int64())
+			}
+			if ep == 0 {
+				ep, _ = p.aux["epoch"].(int)
+			}
+			v := tok.validAt[ep]
+			if v == nil {
+				p.unsup("certificate validity asked at clock epoch %d", ep)
+			}
+			if !p.decide(v) {
+				return fail("certificate has expired or is not yet valid")
+			}
+		} else if tok.validNow != nil && !p.decide(tok.validNow) {
 			return fail("certificate has expired or is not yet valid")
 		}
 		wantClient := false
